@@ -89,6 +89,10 @@ def sm_names(ctx):
                 tpl[lit] = (vars_, js)
         prod[owner.name] = (m, tpl)
     a, b = prod['EstimationModel'][1], prod['Parameters'][1]
+    # a producer whose names are not built by f-strings over the letter tables is not read by
+    # this rule (SM-MODEL / SM-PARAMS execute the producers and decide the names semantically)
+    ctx.need(len(a) == 2 and len(b) >= 2,
+             'SM-NAMES: name templates of the producers not read (%s / %s)' % (sorted(a), sorted(b)))
     ctx.ob('SM-NAMES', set(a) == set(b) and len(a) == 2, None,
            'both producers use the templates %s' % sorted(a), f=prod['Parameters'][0],
            key='templates', why='estimator names states %s but the simulator table uses %s'
@@ -531,25 +535,35 @@ def sm_sign(ctx):
             if isinstance(blk[i], ast.For) and isinstance(blk[i].target, ast.Name):
                 return blk[i].target.id
         return None
-    ok = len(hs) >= 1 and all(st.value.value == 1 for st in hs) and all(
-        isinstance(st.targets[0].slice, ast.Tuple) and
-        norm_text(st.targets[0].slice.elts[0]) == loop_var(st) for st in hs)
-    ctx.ob('SM-SIGN', ok, None, 'bias state enters the reading error with +1 on its own axis',
-           f=init, node=(hs[0] if hs else init.node), key='H-bias',
-           why='bias column of H is not +1 on the row of its own axis')
+    read_ = len(hs) >= 1 and all(isinstance(st.targets[0].slice, ast.Tuple) and
+                                 loop_var(st) is not None and
+                                 isinstance(st.targets[0].slice.elts[0], ast.Name) for st in hs)
+    if read_:
+        ok = all(st.value.value == 1 for st in hs) and all(
+            norm_text(st.targets[0].slice.elts[0]) == loop_var(st) for st in hs)
+        ctx.ob('SM-SIGN', ok, None, 'bias state enters the reading error with +1 on its own axis',
+               f=init, node=(hs[0] if hs else init.node), key='H-bias',
+               why='bias column of H is not +1 on the row of its own axis')
+    else:
+        # another way of filling H: SM-MODEL executes the constructor for a covering family of
+        # enable masks and decides every entry of H
+        ctx.info('SM-SIGN', 'the bias entries of H are not stored as `H[<axis loop variable>, '
+                            '<state>] = 1`; decided by SM-MODEL')
     ge = em.methods['get_estimates']
     t = [n for n in ast.walk(ge.node) if isinstance(n, ast.BinOp) and isinstance(n.op, ast.Sub)
          and 'self.transform' in norm_text(n.left)]
-    ok = False
     if len(t) == 1 and isinstance(t[0].left, ast.Subscript) and \
             isinstance(t[0].left.slice, ast.Tuple) and len(t[0].left.slice.elts) == 2:
         r_, c_ = [norm_text(e) for e in t[0].left.slice.elts]
         rt = norm_text(t[0].right)
         ok = ('%s == %s' % (r_, c_) in rt or '%s == %s' % (c_, r_) in rt) and \
             rt.replace('(', '').startswith('1 if')
-    ctx.ob('SM-SIGN', ok, None, 'reported scale/misalignment = transform - identity', f=ge,
-           node=(t[0] if t else ge.node), key='get',
-           why='get_estimates does not report transform - I')
+        ctx.ob('SM-SIGN', ok, None, 'reported scale/misalignment = transform - identity', f=ge,
+               node=(t[0] if t else ge.node), key='get',
+               why='get_estimates does not report transform - I')
+    else:
+        ctx.info('SM-SIGN', 'get_estimates does not spell `transform[r, c] - (1 if r == c else 0)`; '
+                            'what it reports is decided by SM-MODEL (estimates read back)')
     # SM-UNITS in Parameters.apply
     ap = pm.methods['apply']
     from ..flow import const_arms
